@@ -44,7 +44,7 @@ type Case struct {
 	TruncLen int    `json:"trunc_len,omitempty"` // ... to this many bytes (DESIGN section 7 suspect 9)
 }
 
-var allCalls = []string{"read", "write", "accept", "acceptuni", "open", "openuni", "dgram"}
+var allCalls = []string{"read", "write", "accept", "acceptuni", "open", "openuni", "dgram", "senddgram"}
 
 func has(list []string, x string) bool {
 	for _, y := range list {
@@ -218,6 +218,18 @@ func normalize(c *Case) {
 			var keep []string
 			for _, b := range s.Blocked {
 				if b != "write" && b != "open" && b != "openuni" {
+					keep = append(keep, b)
+				}
+			}
+			s.Blocked = keep
+		}
+	}
+	if !(c.Cause == "idle" && c.Variant%2 == 0) {
+		// SendDatagram only blocks (send queue full) when nothing gets through any more: blackout cases only
+		for _, s := range []*Side{&c.C, &c.S} {
+			var keep []string
+			for _, b := range s.Blocked {
+				if b != "senddgram" {
 					keep = append(keep, b)
 				}
 			}
